@@ -749,6 +749,7 @@ func c17Keys(c *Ctx) {
 }
 
 var c17Canaries = []Canary{
+	{Name: "r5-username-in-lookup-url", ExpectKey: "C17.O7#config-lookup-url", Edits: []Edit{{File: "creds/creds.go", Find: "\trawurl := fmt.Sprintf(\"%s://%s%s\", u.Scheme, u.Host, u.Path)", Repl: "\trawurl := fmt.Sprintf(\"%s://%s@%s%s\", u.Scheme, u.User.Username(), u.Host, u.Path)"}}},
 	{Name: "r4-blob-source-unrestricted", ExpectKey: "C17.C11/R3", Edits: []Edit{{File: "git/config.go", Find: "	out, err := c.gitConfig(\"-l\", \"--blob\", revision)\n	if err != nil {\n		return nil, err\n	}\n	return ParseConfigLines(out, true), nil", Repl: "	out, err := c.gitConfig(\"-l\", \"--blob\", revision)\n	if err != nil {\n		return nil, err\n	}\n	return ParseConfigLines(out, false), nil"}}},
 	{Name: "drop-lf-check", ExpectKey: "C17.O2", Edits: []Edit{{File: "creds/creds.go", Find: `if strings.Contains(item, "\n") {`, Repl: `if strings.Contains(k, "\n") {`}}},
 	{Name: "drop-nul-check", ExpectKey: ":NUL", Edits: []Edit{{File: "creds/creds.go", Find: `if strings.Contains(item, string(rune(0))) {`, Repl: `if false && strings.Contains(item, string(rune(0))) {`}}},
